@@ -379,6 +379,11 @@ type Proxy struct {
 	// would have 6 entries.
 	ServiceTargets []ServiceTarget
 
+	// PrevServiceTargets is the value of ServiceTargets prior to the most recent SetServiceTargets call.
+	// A service that was deleted, or that stopped selecting the proxy, is only found here; the proxy still
+	// holds the inbound configuration built for it and needs a push for that change.
+	PrevServiceTargets []ServiceTarget
+
 	// LocalService identifies the local service associated with the proxy. It is populated in
 	// SetServiceTargets from the first entry in ServiceTargets, or the zero value if there is none.
 	// Carrying the port here avoids re-deriving it from ServiceTargets when building the
@@ -641,6 +646,7 @@ func (node *Proxy) SetServiceTargets(serviceDiscovery ServiceDiscovery) {
 			Port:      instances[0].Port.Port,
 		}
 	}
+	node.PrevServiceTargets = node.ServiceTargets
 	node.ServiceTargets = instances
 }
 
